@@ -124,7 +124,7 @@ def make_pyvis_net(
         for edge in vert.links:
 
             # only draw arrows when we're at the *from* node
-            if vert is edge.v2:
+            if vert is edge.v2 and vert is not edge.v1:
                 continue
 
             other = edge.other(vert)
